@@ -39,6 +39,10 @@ TABLES = [
     ('T11c', 'LanguageClassesFactory.get_association_by_signature', ('C06', 'C18')),
     ('T12a', 'Model._validate_association', ('C06',)),
     ('T12b', 'Model.add_association', ('C06', 'C05')),
+    ('T13', 'LanguageGraph._get_associations_for_asset_type', ('C15',)),
+    ('T14', 'AttackGraphNode.is_compromised_by', ('C11', 'C12')),
+    ('T15', 'Attacker.compromise', ('C11', 'C09')),
+    ('T16', 'Attacker.undo_compromise', ('C11', 'C09')),
 ]
 STRIP_COPIES = {'T10'}
 # small pure methods that may be inlined into their callers
